@@ -3,7 +3,7 @@ import itertools
 
 from hypothesis import strategies as st
 
-from ..runner import Violation, unexpected, digest
+from ..runner import Violation, unexpected, digest, guarded
 from ..ref import script as S
 from .. import libx
 
@@ -120,12 +120,14 @@ def check_raw_bytes(s, cls=None):
         cok = False
     except Exception as e:
         raise unexpected('iterate', e, s.hex()[:60])
+    exp_cooked = None
     if cok != ok:
         raise Violation('iterate/%s' % ('accepts-malformed' if cok else 'rejects-wellformed'), 'iteration over %s' % s.hex()[:80])
     if ok:
         exp = []
         for o, d, _, _ in toks:
             exp.append(0 if o == 0 else (d if d is not None else ((o - 0x50) if 0x51 <= o <= 0x60 else ('op', o))))
+        exp_cooked = exp
         if [_norm(x) for x in cooked] != exp:
             raise Violation('iterate/values', 'cooked iteration over %s differs from the reference' % s.hex()[:80])
     c = CScript(s)
@@ -146,7 +148,38 @@ def check_raw_bytes(s, cls=None):
         r = libx.call('sigops-%s' % ('accurate' if acc else 'legacy'), c.GetSigOpCount, acc)[1]
         if r != exp:
             raise Violation('sigops/%s-count' % ('accurate' if acc else 'legacy'), 'GetSigOpCount(%s) on %s = %r, reference %d' % (acc, s.hex()[:80], r, exp))
-    return {'nt': len(toks) >= 2 or not ok or any(0x4c <= o <= 0x4e for o, _, _, _ in toks), 'evals': 14,
+    # the SAME object asked again, after the predicates, a failed iteration and an abandoned one: answers do not depend on
+    # what was asked before (per-instance memos, generators left half-consumed)
+    for it_fn in (iter, CScript.raw_iter):
+        try:
+            next(it_fn(c))
+        except (StopIteration, CScriptInvalidError):
+            pass
+        except Exception as e:
+            raise unexpected('iterate-again', e, s.hex()[:60])
+    try:
+        again = [_norm(x) for x in c]
+        aok = True
+    except CScriptInvalidError:
+        aok = False
+    except Exception as e:
+        raise unexpected('iterate-again', e, s.hex()[:60])
+    if aok != ok or (ok and again != exp_cooked):
+        raise Violation('iterate/second-pass', 'a second iteration over the same CScript(%s) object gives a different result' % s.hex()[:80])
+    got2, lok2 = [], True
+    try:
+        got2 = [(int(o), (bytes(d) if d is not None else None), a) for o, d, a in c.raw_iter()]
+    except CScriptInvalidError:
+        lok2 = False
+    except Exception as e:
+        raise unexpected('raw_iter-again', e, s.hex()[:60])
+    if lok2 != ok or (ok and got2 != [(o, d, a) for o, d, a, b in toks]):
+        raise Violation('raw_iter/second-pass', 'a second raw_iter over the same CScript(%s) object gives a different result' % s.hex()[:80])
+    for name in ('is_valid', 'is_push_only', 'has_canonical_pushes'):
+        r = libx.call('pred-again/' + name, getattr(c, name))[1]
+        if bool(r) != want[name]:
+            raise Violation('pred/%s-second-call' % name, '%s(%s) = %r when asked a second time, reference %s' % (name, s.hex()[:80], r, want[name]))
+    return {'nt': len(toks) >= 2 or not ok or any(0x4c <= o <= 0x4e for o, _, _, _ in toks), 'evals': 19,
             'cls': ['raw', 'malformed' if not ok else 'wellformed']}
 
 
@@ -224,7 +257,7 @@ def t_exhaustive_raw(ctx):
                 strings.append(bytes([first]) + bytes(rest))
         for s in strings:
             try:
-                info = check_raw_bytes(s, cls)
+                info = guarded(lambda b_: check_raw_bytes(b_, cls), s)
             except Violation as v:
                 ctx.evals += 1
                 ctx.violation(v, {'kind': 'raw', 'script': s.hex()})
@@ -244,7 +277,7 @@ def t_exhaustive_tokens(ctx):
         ctx.run(case)
         for b in ops:
             try:
-                check_build({'kind': 'build', 'tokens': [['op', a], ['op', b]]})
+                guarded(check_build, {'kind': 'build', 'tokens': [['op', a], ['op', b]]})
                 n += 1
             except Violation as v:
                 ctx.evals += 1
@@ -256,9 +289,9 @@ def t_exhaustive_tokens(ctx):
     m = 0
     for v in ctx.my(range(lo, hi + 1)):
         try:
-            check_num({'kind': 'num', 'v': v})
+            guarded(check_num, {'kind': 'num', 'v': v})
             if v % 7 == 0 or abs(v) < 300:
-                check_build({'kind': 'build', 'tokens': [['int', v]]})
+                guarded(check_build, {'kind': 'build', 'tokens': [['int', v]]})
             m += 1
         except Violation as e:
             ctx.evals += 1
@@ -268,7 +301,7 @@ def t_exhaustive_tokens(ctx):
     for a in ctx.my(range(256)):
         for s in [bytes([a])] + [bytes([a, b]) for b in range(256)] + ([b''] if a == 0 else []):
             try:
-                check_num({'kind': 'num', 'b': s.hex()})
+                guarded(check_num, {'kind': 'num', 'b': s.hex()})
                 k += 1
             except Violation as e:
                 ctx.evals += 1
